@@ -99,6 +99,13 @@ func c05Fixture(dir string) {
 
 func c05MakeReq(kind, tok string, rng *rand.Rand) c05Req {
 	r := c05Req{Kind: kind, Tok: tok, Method: "GET"}
+	// Half of the requests carry their unique token in the path as well; the other half use one of 400 path keys
+	// that many requests share, so that anything the router remembers about a path is asked for again and again
+	// (the unique token still travels in the header, the query, the cookie and the body).
+	pt := tok
+	if rng.Intn(2) == 0 {
+		pt = fmt.Sprintf("k%03d", rng.Intn(400))
+	}
 	switch kind {
 	case "static":
 		r.Path = "/static/ping"
@@ -107,30 +114,30 @@ func c05MakeReq(kind, tok string, rng *rand.Rand) c05Req {
 	case "optional-long":
 		r.Path = "/opt/tail"
 	case "placeholder":
-		r.Path = "/u/" + tok
+		r.Path = "/u/" + pt
 	case "regex":
-		r.Path = "/r/" + tok + "-42"
+		r.Path = "/r/" + pt + "-42"
 	case "matchall-capture":
-		r.Path = "/m/" + tok + "/x/end"
+		r.Path = "/m/" + pt + "/x/end"
 	case "final-matchall":
-		r.Path = "/f/" + tok + "/a/b/" + tok
+		r.Path = "/f/" + pt + "/a/b/" + pt
 	case "header":
-		r.Path = "/h/" + tok
+		r.Path = "/h/" + pt
 	case "any":
-		r.Path = "/any/" + tok
+		r.Path = "/any/" + pt
 		r.Method = []string{"GET", "POST", "PUT", "DELETE"}[rng.Intn(4)]
 	case "panic":
-		r.Path = "/panic/" + tok
+		r.Path = "/panic/" + pt
 	case "notfound":
-		r.Path = "/nowhere/" + tok
+		r.Path = "/nowhere/" + pt
 	case "render-json":
-		r.Path = "/j/" + tok
+		r.Path = "/j/" + pt
 	case "render-xml":
-		r.Path = "/x/" + tok
+		r.Path = "/x/" + pt
 	case "render-text":
-		r.Path = "/t/" + tok
+		r.Path = "/t/" + pt
 	case "query-cookie":
-		r.Path = "/qc/" + tok
+		r.Path = "/qc/" + pt
 	case "static-file":
 		r.Path = "/assets/hello.txt"
 	case "static-file-2":
@@ -138,14 +145,14 @@ func c05MakeReq(kind, tok string, rng *rand.Rand) c05Req {
 	case "static-file-big":
 		r.Path = "/assets/big.bin"
 	case "notfound-after-capture":
-		r.Path = "/g1/" + tok + "/nope" // binds {tok} on the way, then finds nothing
+		r.Path = "/g1/" + pt + "/nope" // binds {tok} on the way, then finds nothing
 	case "header2":
 		// three constraints; different requests fail different ones (or none)
-		r.Path = "/h2/" + tok
+		r.Path = "/h2/" + pt
 		r.Two = []string{"ok", "ok", "no", ""}[rng.Intn(4)]
 		r.Role = []string{"admin", "admin", "guest"}[rng.Intn(3)]
 	case "grouped":
-		r.Path = "/g1/" + tok + "/g2/leaf"
+		r.Path = "/g1/" + pt + "/g2/leaf"
 	}
 	return r
 }
@@ -555,7 +562,7 @@ func raceDedupKey(blk string) string {
 }
 
 func runC05(r *core.Run) {
-	r.Rule("per round one COLD instance (lazy caches unfilled) with routes of every kind (static shortcut, optional static short/long, placeholder, multi-bind regex, match-all with capture, final match-all, header-constrained, Any, named route used for URL building, JSON rendering, a panicking route behind Recovery, custom not-found chain) and Logger+Recovery+Renderer middleware; 32-64 goroutines behind a barrier, the first wave hits every route kind while cold, then few hot routes; every request carries a unique token in a path parameter, a header and the body; an early middleware maps a request-scoped value; handlers reached through Next (fast path) and reflectively echo parameters, `route`, the injected value, a built URL and the body, with seeded yields / sleeps / pairwise rendezvous between reading and writing. Oracles: (1) Go race detector, report blocks with a framework frame counted from the log; (2) byte-for-byte equality (status, body, Content-Type, ETag, response tags) with an identically built instance that served the same requests serially, which in turn equals - for the cold wave and every 32nd request - a fresh instance that serves nothing else; (3) no foreign token in any response; (4) every line the request logger writes carries the request-scoped logger (request id) of the request it is about. non-trivial = distinct concurrent rounds")
+	r.Rule("per round one COLD instance (lazy caches unfilled) with routes of every kind (static shortcut, optional static short/long, placeholder, multi-bind regex, match-all with capture, final match-all, header-constrained, Any, named route used for URL building, JSON rendering, a panicking route behind Recovery, custom not-found chain) and Logger+Recovery+Renderer middleware; 32-64 goroutines behind a barrier, the first wave hits every route kind while cold, then few hot routes; every request carries a unique token in a header, the query, a cookie and the body, half of them also in the path - the other half use one of 400 shared path keys, so that paths repeat; an early middleware maps a request-scoped value; handlers reached through Next (fast path) and reflectively echo parameters, `route`, the injected value, a built URL and the body, with seeded yields / sleeps / pairwise rendezvous between reading and writing. Oracles: (1) Go race detector, report blocks with a framework frame counted from the log; (2) byte-for-byte equality (status, body, Content-Type, ETag, response tags) with an identically built instance that served the same requests serially, which in turn equals - for the cold wave and every 32nd request - a fresh instance that serves nothing else; (3) no foreign token in any response; (4) every line the request logger writes carries the request-scoped logger (request id) of the request it is about. non-trivial = distinct concurrent rounds")
 	r.Assume("happens-before race detection is timing independent for accesses that occur; the shadow history is bounded (4 accesses per word)")
 	r.Race = raceEnabled
 	if !raceEnabled {
